@@ -54,6 +54,16 @@ def gen_hierarchy(rng):
 
     dom_of = {}
     counter = [0]
+    # in a third of the designs the drivers are attached only after the system has been given a simulator once
+    # (getSimulator() again afterwards): the domain of a block is the nearest ancestor's driver at the time it is simulated
+    late = rng.random() < 0.34
+    pending = []
+
+    def attach(obj, drv):
+        if late:
+            pending.append((obj, drv))
+        else:
+            obj.clockDriver = drv
 
     def fill(parent, depth, cur):
         nkids = rng.choice([1, 2, 3])
@@ -68,7 +78,7 @@ def gen_hierarchy(rng):
                 d = cur
                 if rng.random() < 0.5 and len(doms) < 4:
                     d = new_driver()
-                    c.clockDriver = doms[d]['drv']
+                    attach(c, doms[d]['drv'])
                 before = len(hw.allLeaves())
                 fill(c, depth + 1, d)
                 if not c.children:
@@ -83,7 +93,7 @@ def gen_hierarchy(rng):
                 d = cur
                 if rng.random() < 0.3 and len(doms) < 4:
                     d = new_driver()
-                    lf.clockDriver = doms[d]['drv']
+                    attach(lf, doms[d]['drv'])
                 dom_of[id(lf)] = d
                 regouts.append((q, d))
             elif kind == 'not':
@@ -102,12 +112,16 @@ def gen_hierarchy(rng):
                     c = py4hw.Stack_ShiftRegister(parent, nm, src, q, hw.wire('push_' + nm), hw.wire('pop_' + nm), None, None, 2)
                 if rng.random() < 0.4 and len(doms) < 4:
                     d = new_driver()
-                    c.clockDriver = doms[d]['drv']
+                    attach(c, doms[d]['drv'])
                 for lf in c.allLeaves():
                     if lf.isClockable():
                         dom_of[id(lf)] = d
                 regouts.append((q, d))
     fill(hw, 1, 0)
+    if late:
+        hw.getSimulator()
+        for obj, drv in pending:
+            obj.clockDriver = drv
     return hw, dom_of, doms
 
 
